@@ -27,6 +27,7 @@ def run(R):
                      "bus event before PIN_HI, no soft reset; without: exactly one CMD(0x01) first. Model::init follows the reset on "
                      "every path and error paths are prefixes. Crate-wide inventories: the reset pin is driven nowhere else, no model "
                      "init sends a soft reset, Display is constructed only by Builder::init.")
+    R.witnesses('W1', 'C17-witness-no-display-without-init')
     for cfg in R.configs:
         F = R.facts(cfg)
         ex = R.executor(F)
